@@ -125,6 +125,7 @@ class Run:
         self.ctor_exc = None
         self.ctor_out = ""
         self.prelude = []
+        self.not_running = None
         buf = io.StringIO()
         prog_arg = program
         if as_file:
@@ -149,7 +150,13 @@ class Run:
     def ev(self, e):
         (self.cur if self.cur is not None else self.prelude).append(e)
 
+    def observe_running(self, what):
+        """the running flag as an application sees it from inside a callback"""
+        if self.s is not None and self.s.running is not True and self.not_running is not None and len(self.not_running) < 3:
+            self.not_running.append(what)
+
     def var(self, name, ctx):
+        self.observe_running("variable query %r" % name)
         if self.answer_fn is None:
             v = None
         else:
@@ -166,6 +173,7 @@ class Run:
         return self.fns[key].on_notification
 
     def notified(self, _kind, _j, api):
+        self.observe_running("%s notification of %s (listener %d)" % (_kind, api.task.name if _kind[0] == "t" else api.service.name, _j))
         if _kind[0] == "t":
             name = api.task.name
             line = api.task_call.context.start.line if api.task_call else api.task.context.start.line
@@ -212,6 +220,7 @@ class Run:
         rec = {"op": op, "out": [], "ret": None, "exc": None}
         outer = self.cur
         self.cur = rec["out"]
+        self.not_running = rec["not_running_in"] = []
         buf = io.StringIO()
         try:
             with contextlib.redirect_stdout(buf):
